@@ -298,6 +298,9 @@ def expected(case, raw, ix):
 # ----------------------------------------------------------------------------------------
 # comparison of a returned container with the reference
 # ----------------------------------------------------------------------------------------
+NDIM = dict(counts=3, sw1=2, sw2=2, data=1, samples=2)
+
+
 def same_array(a, b):
     a, b = np.asarray(a), np.asarray(b)
     return a.shape == b.shape and bool(np.array_equal(a, b))
@@ -323,6 +326,11 @@ def compare(case, res, exp):
             bad.append((name, kind, "member missing in the result"))
             continue
         got = leaf_arrays(leaf, kind)
+        malformed = [k for k, a in got.items() if a.ndim != NDIM[k]]
+        if malformed:
+            bad.append((name, "malformed", "%s has %d dimensions (shape %s) instead of %d"
+                        % (malformed[0], got[malformed[0]].ndim, got[malformed[0]].shape, NDIM[malformed[0]])))
+            continue
         for key, want in exp["leaves"][name].items():
             if not same_array(got[key], want):
                 bad.append((name, kind, "%s: %s" % (key, first_diff(got[key], want))))
@@ -343,6 +351,8 @@ def wrong_stem(case, bad):
     (counts, sum_weights) of a member is the right selection"""
     member = lambda n: n.rsplit(".", 1)[0] if "." in n else ""  # noqa: E731
     kinds = {k for _, k, _ in bad}
+    if "malformed" in kinds:
+        return "malformed-selection"
     if case["t"] in ("nc", "cf") and kinds and kinds <= {"pc", "sw"}:
         for m in {member(n) for n, _, _ in bad}:
             if len({k for n, k, _ in bad if member(n) == m}) == 1:
@@ -406,6 +416,8 @@ def coq_terms(case, ix, res, raised):
         leaf = get_leaf(res, name)
         if leaf is None or leaf_entries(leaf, kind) > COQ_ENTRIES:
             return []
+        if any(a.ndim != NDIM[k] for k, a in leaf_arrays(leaf, kind).items()):
+            return []           # not a container the model's records can hold: judged by the reference (malformed-selection)
         try:
             term = enc_leaf(leaf, kind)
         except base.NonFinite:
@@ -654,7 +666,7 @@ def g_index(rng, case, kind=None, dtype=None, style=None, small=True):
     if r < 0.05:
         vals = []
     else:
-        k = rng.randrange(1, kmax + 1) if (small or rng.random() < 0.5) else rng.randrange(kmax + 1, min(2 * n, 300) + 2)
+        k = rng.randrange(1, kmax + 1) if (small or rng.random() < 0.5) else rng.randrange(kmax + 1, max(kmax, min(2 * n, 300)) + 2)
         vals = pick_values(rng, n, lo, hi, k, style, increasing)
     if 0.05 <= r < 0.13:          # one value off the axis (if the representation can hold it)
         cand = [v for v in (n, -n - 1, n + rng.randrange(0, 50)) if dmin <= v <= dmax]
